@@ -12,6 +12,7 @@ import (
 )
 
 const (
+	versionDefault            = 0x300
 	reservedDefault           = 0xff
 	reserved2Default          = 0x0008
 	sinitMinVersionDefault    = 0x0
@@ -29,6 +30,12 @@ type configJSON struct {
 	LcpSignAlgMask     string `json:"LCPSignAlgMask"`     // List signing algorithms for LcpSignAlgMask, separated by comma. RSA2048SHA1,RSA2048SHA256,RSA3072SHA256,RSA3072SHA384,ECDSAP256SHA256,ECDSAP384SHA384 supported
 }
 
+// parseHex reads a hex value of the config file, with or without the "0x" prefix.
+func parseHex(s string) (uint64, error) {
+	s = strings.TrimPrefix(strings.TrimPrefix(s, "0x"), "0X")
+	return strconv.ParseUint(s, 16, 0)
+}
+
 func loadConfig(filename string) (*tools.LCPPolicy2, error) {
 	var ok bool
 	var b []byte
@@ -40,9 +47,12 @@ func loadConfig(filename string) (*tools.LCPPolicy2, error) {
 	if err := json.Unmarshal(b, &config); err != nil {
 		return nil, err
 	}
-	ver, err := strconv.ParseUint(config.Version, 16, 0)
-	if err != nil {
-		return nil, err
+	ver := uint64(versionDefault)
+	if len(config.Version) > 0 {
+		ver, err = parseHex(config.Version)
+		if err != nil {
+			return nil, err
+		}
 	}
 	if uint16(ver) < uint16(0x300) || uint16(ver) > uint16(0x306) {
 		return nil, fmt.Errorf("invalid LCP Version. Want: 0x300 - 0x306 - Have: %v", config.Version)
@@ -61,7 +71,7 @@ func loadConfig(filename string) (*tools.LCPPolicy2, error) {
 	}
 	var smv, msmv uint64
 	if len(config.SINITMinVersion) > 0 {
-		smv, err = strconv.ParseUint(config.SINITMinVersion, 16, 0)
+		smv, err = parseHex(config.SINITMinVersion)
 		if err != nil {
 			return nil, err
 		}
@@ -69,7 +79,7 @@ func loadConfig(filename string) (*tools.LCPPolicy2, error) {
 		smv = sinitMinVersionDefault
 	}
 	if len(config.MaxSINITMinVersion) > 0 {
-		msmv, err = strconv.ParseUint(config.MaxSINITMinVersion, 16, 0)
+		msmv, err = parseHex(config.MaxSINITMinVersion)
 		if err != nil {
 			return nil, err
 		}
